@@ -52,7 +52,7 @@ pub fn scenario(family: &str, seed: u64) -> Scenario {
         l.max_mtu = pick(rng, &[1300u16, 1350, 1500, 4000, 9000]);
         l.max_ack_delay_ms = pick(rng, &[25u64, 25, 5, 60, 200]);
     }
-    let mut sc = Scenario { seed, family: family.into(), c, s, net: net.clone(), streams: vec![], close: "c".into(), close_at_us: 0, linger_us: 300_000, deadline_us: 120_000_000, rebinds: vec![], cid_lifetime_s: 0, violation: None, retry: false, dup_cid_frames: false, rebind_toggle: false, spoof_probe: false, tp_tamper: None };
+    let mut sc = Scenario { seed, family: family.into(), c, s, net: net.clone(), streams: vec![], close: "c".into(), close_at_us: 0, linger_us: 300_000, deadline_us: 120_000_000, rebinds: vec![], cid_lifetime_s: 0, violation: None, retry: false, dup_cid_frames: false, rebind_toggle: false, spoof_probe: false, tp_tamper: None, early_retire_at_us: 0 };
     match family {
         // clean network, default windows: the happy path
         "clean" => {
